@@ -444,12 +444,14 @@ def mon_c14_full_exact(case, ots):
         return None
     unsent = 0
     cur_max = case.max
+    cur_wbs = case.wbs
     for i, (op, ot) in enumerate(zip(ops, ots)):
         k = op.split(':')[0]
         if k == 'sb':
             if ot.res == 'ok':
                 p = op.split(':')
                 cur_max = None if p[2] == 'inf' else int(p[2])
+                cur_wbs = int(p[1])
             continue
         if k in ('wt', 'wb', 'wpi'):
             n = len(ws.unhx(op.split(':')[1]))
@@ -462,6 +464,11 @@ def mon_c14_full_exact(case, ots):
                 return ('full-rule: op %d %s: %d bytes unsent + %d byte frame, max_write_buffer_size now %s: expected %s, got %s'
                         % (i, op[:20], unsent, size, cur_max, 'WriteBufferFull' if exp_full else 'acceptance', ot.res[:30]))
             if not got_full:
+                # no automatic frame can be pending in a write-only history: whatever the transport did earlier (partial
+                # acceptance, refusals), a write that leaves the unsent data at or below write_buffer_size stays in the buffer
+                if unsent + size <= cur_wbs and any(e.startswith('W:') or e.startswith('F:') for e in ot.events):
+                    return ('not-batched: write op %d %s: %d bytes unsent + %d byte frame <= write_buffer_size %d, nothing pending, but the transport was touched: %s'
+                            % (i, op[:20], unsent, size, cur_wbs, ' '.join(ot.events)[:80]))
                 unsent += size
         for e in ot.events:
             if e.startswith('W:'):
